@@ -211,7 +211,13 @@ def check_run(chk: core.Check, r: dict, label, replay_rows: int):
 
 
 def run(chk: core.Check) -> int:
+    from tools import extract
+    ext = extract.main(['MCWrite'])
+    chk.coverage['extract_digest'] = {k: v['digest'] for k, v in ext.items()}
+    chk.coverage['row_write_facts'] = ext['MCWrite']['data']
     clean = chk.prove(['GeoVerif.Properties.C14'])
+    if not clean:
+        chk.notes.append(f'row-write facts extracted from work_package: {ext["MCWrite"]["data"]} (expected: mode "a", one write, at least one flush, no other use of the file object)')
     quick = chk.tier == 'quick'
     jobs = []
 
@@ -259,7 +265,8 @@ def run(chk: core.Check) -> int:
     chk.assumptions += ['"exactly the output values in that row": the strings the row holds equal the strings extracted from a fresh report of base + recorded samples (the samples are recorded with full repr precision)',
                         'the standard deviation is compared through its square with the exact variance (population, as numpy.nanstd); float summation order is not modelled (1e-9)',
                         'pylocker\'s mutual exclusion is not assumed: integrity is checked on the file against the workers\' own log']
-    chk.trusted += ['numpy statistics are *not* trusted: recomputed exactly in Lean', 'the hook log (cef3b93)']
+    chk.trusted += ['numpy statistics are *not* trusted: recomputed exactly in Lean', 'the hook log (cef3b93)',
+                    'tools/extract.py (AST facts about how work_package writes a row); the operating system\'s O_APPEND atomicity for a single write']
     return chk.finish(rule=RULE)
 
 
